@@ -4,6 +4,7 @@ From Coq Require Import List Arith NArith ZArith Lia Bool.
 From Coq Require Import Strings.Byte.
 Require Import CU.model.Prim CU.model.Types CU.model.Unicode CU.model.Codec CU.model.Dates CU.model.Block CU.model.Vbs
                CU.model.Iso CU.model.Ipm CU.model.Tools.
+Require Import CU.model.Dec.
 Require Import CU.spec.FramingSpec CU.spec.IsoSpec.
 Require Import CU.proofs.NumProofs CU.proofs.BlockProofs CU.proofs.VbsProofs CU.proofs.PdsProofs CU.proofs.IsoWire CU.proofs.IsoRoundtrip CU.proofs.IpmProofs.
 Require CU.gen.GenConfig CU.gen.GenCodec.
@@ -291,7 +292,8 @@ Proof.
   intros c H. unfold wf_fieldb, de43_for_text in *. destruct (tp_noproc_proj c) as (H1 & H2 & H3 & H4).
   rewrite H1, H2, H3, H4, tp_noproc_proc, ?tp_noproc_de43.
   destruct (f_len c) as [n|]; [|discriminate].
-  destruct (f_ptype c); destruct (f_proc c); try exact H; try discriminate H; reflexivity.
+  destruct (f_ptype c); destruct (f_proc c); try exact H; try discriminate H;
+    try (rewrite andb_false_r in H; discriminate H); reflexivity.
 Qed.
 
 Lemma tp_wf_valb_noproc : forall c cd v, wf_valb c cd v = true -> wf_valb (tp_noproc c) cd v = true.
@@ -303,6 +305,8 @@ Proof.
     apply andb_true_iff in H. exact (proj1 H).
   - destruct (f_proc c); try discriminate H; rewrite ?tp_len_okb_noproc; exact H.
   - destruct (f_len c) as [w|]; [|discriminate H]. rewrite tp_len_okb_noproc. exact H.
+  - destruct (f_len c) as [w|]; [|discriminate H]. destruct (dec_parse s) as [d0| |]; try discriminate H.
+    rewrite tp_len_okb_noproc. exact H.
   - destruct (strftime_m (f_datefmt c) d) as [s| | |]; rewrite ?tp_len_okb_noproc; exact H.
 Qed.
 
@@ -324,6 +328,8 @@ Proof.
       repeat (apply andb_true_iff; split); try assumption; apply He; assumption.
   - exact H.
   - destruct (f_len c) as [w|]; [|discriminate H].
+    apply andb_true_iff in H. destruct H as [H H2]. rewrite H. cbn [andb]. apply He. exact H2.
+  - destruct (f_len c) as [w|]; [|discriminate H]. destruct (dec_parse s) as [d0| |]; try discriminate H.
     apply andb_true_iff in H. destruct H as [H H2]. rewrite H. cbn [andb]. apply He. exact H2.
   - apply andb_true_iff in H. destruct H as [H H2]. rewrite H. cbn [andb].
     destruct (strftime_m (f_datefmt c) d) as [s| | |]; try discriminate H2.
